@@ -61,6 +61,7 @@ func (p *searchPath) String() string {
 type param struct {
 	name    string
 	namePos token.LnColPos
+	rootPos token.LnColPos
 
 	allNg    map[string]*runtime.Script
 	retMap   map[string]*runtime.Script
@@ -93,7 +94,9 @@ func EngineCallRefLinkAndCheck(allNg map[string]*runtime.Script, allErrNg map[st
 
 func dfs(name string, procc *runtime.Script, sPath *searchPath, p *param) error {
 	if err := sPath.Push(name); err != nil {
-		return errchain.NewErr(p.name, p.namePos, err.Error())
+		// reported against the root script, at its own call site (p.namePos is
+		// a position in the script whose call closed the cycle)
+		return errchain.NewErr(p.name, p.rootPos, err.Error())
 	}
 
 	if _, ok := p.retMap[name]; ok {
@@ -104,6 +107,9 @@ func dfs(name string, procc *runtime.Script, sPath *searchPath, p *param) error 
 	for _, expr := range procc.CallRef {
 		cName, err := getParamRefScript(expr)
 		p.namePos = expr.NamePos
+		if len(sPath.path) == 1 {
+			p.rootPos = expr.NamePos // the root script's own call that leads here
+		}
 		if err != nil {
 			return err
 		}
@@ -121,6 +127,7 @@ func dfs(name string, procc *runtime.Script, sPath *searchPath, p *param) error 
 		} else {
 			expr.PrivateData = cNg
 			if err := dfs(cName, cNg, sPath, p); err != nil {
+				p.namePos = expr.NamePos // deeper levels overwrite the shared field
 				if e, ok := err.(*errchain.PlError); ok {
 					return e.Copy().ChainAppend(procc.Name, p.namePos)
 				}
